@@ -18,10 +18,15 @@ static grid::Run R;
 #if A_SIZE_REAL + 0 == 4
 static const double EPS = FLT_EPSILON;
 #define RNAME "f32"
+#elif A_SIZE_REAL + 0 == 16
+static const double EPS = LDBL_EPSILON;
+#define RNAME "ld"
 #else
 static const double EPS = DBL_EPSILON;
 #define RNAME "f64"
 #endif
+// element-wise equality of coefficient vectors (memcmp would also compare the padding bytes of an x87 long double)
+static bool same_vec(const a_real *x, const a_real *y, int n) { for (int i = 0; i < n; ++i) { if (!(x[i] == y[i])) { return false; } } return true; }
 static double worstF[5][4];
 static const double FINAL_TOL[5][4] = {{0, 0, 0, 0}, {0, 0, 0, 0}, {64, 128, 0, 0}, {256, 1024, 4096, 0}, {2048, 16384, 81920, 400000}}; // observed worst: 2.4 7.2 | 15 62 179 | 123 1002 4727 20808
 static double worst[8]; // calibration: largest observed error / (eps * scale) per check class
@@ -276,9 +281,9 @@ static void polys(bool thorough)
             // order reversal is an involution and is the reversal
             memcpy(s2, a, sizeof(a_real) * (size_t)len);
             a_poly_swap(s2, (a_size)len);
-            bool rev_ok = memcmp(s2, b, sizeof(a_real) * (size_t)len) == 0;
+            bool rev_ok = same_vec(s2, b, len);
             a_poly_swap(s2, (a_size)len);
-            bool inv_ok = memcmp(s2, a, sizeof(a_real) * (size_t)len) == 0;
+            bool inv_ok = same_vec(s2, a, len);
             // the pointer-range form reverses [first, last) likewise
             if (len > 0)
             {
@@ -286,7 +291,7 @@ static void polys(bool thorough)
                 s3[0] = (a_real)-777; s3[len + 1] = (a_real)-777;
                 memcpy(s3 + 1, a, sizeof(a_real) * (size_t)len);
                 a_poly_swap_(s3 + 1, s3 + 1 + len);
-                if (memcmp(s3 + 1, b, sizeof(a_real) * (size_t)len) != 0 || s3[0] != (a_real)-777 || s3[len + 1] != (a_real)-777) { rev_ok = false; }
+                if (!same_vec(s3 + 1, b, len) || s3[0] != (a_real)-777 || s3[len + 1] != (a_real)-777) { rev_ok = false; }
             }
             ++n;
             std::string in = "{\"n\":" + std::to_string(len) + ",\"code\":" + std::to_string(code) + "}";
